@@ -43,6 +43,18 @@ def cases(tier):
 
 def run(ctx, case):
     sc = P.build(ctx, case)
+    # the statement is about unique weighted medians: no prefix of the units (sorted by relative change) holds exactly half of the
+    # weight, for every estimand.  Assumed up front, so that non-unique optima (where the real solver may legitimately pick another
+    # optimum than the stub) are outside the explored space.
+    for est in case["estimands"]:
+        reps0 = [u for u in sc.units if u.kind == "rep"]
+        b0 = {u.fips: u.vals["baseline_%s" % est] + 1 for u in reps0}
+        ys = [(u.vals["results_%s" % est] - b0[u.fips]) / b0[u.fips] for u in reps0]
+        ws = [b0[u.fips] for u in reps0]
+        Wt = P.csum(ws)
+        for yi in ys:
+            cum = P.csum(sym.ite(y <= yi, w_, 0) if isinstance(y <= yi, sym.SymBool) else (w_ if y <= yi else 0) for y, w_ in zip(ys, ws))
+            ctx.assume(sym.NOT(AEQ(cum * 2, Wt)))
     r = P.run_client(ctx, case, sc=sc, qr_mode="median", real_qr_in_replay=True)
     res = r.res
     ud = res["unit_data"].set_index("geographic_unit_fips")
